@@ -42,6 +42,7 @@ def _job(case):
     si = make_store_on(root, init)
     ini_probe = fscen.probe(si, c)
     ini_vis = fscen.visible(fscen.absof(init), c)
+    ini_abs = fscen.absof(init)
     docs, cids = i9.allowed_sets(c, init)
     res = {"case": label, "call": O.name(op), "state": state, "crash_points": len(base.snapshots),
            "distinct_crash_states": len(states), "violations": [], "classes": set()}
@@ -64,6 +65,22 @@ def _job(case):
                 viol.append(("another pid's object or metadata differs after the crash", {"pid": b}))
             if vis["bind"].get(repr(b)) != ini_vis["bind"].get(repr(b)):
                 viol.append(("another pid's references differ after the crash", {"pid": b}))
+        # reference lists shared with bystanders: the other pids' lines exactly as before, and a NEW line for the
+        # interrupted pid only together with the pid reference that makes it a binding
+        a_now, a_ini = fscen.absof(tree), ini_abs
+        for cid0, text0 in a_ini.cid_refs.items():
+            before = [x for x in (a_ini.cid_lines(cid0) or []) if x != target]
+            if not before:
+                continue  # nobody else shares this list
+            now = a_now.cid_lines(cid0)
+            if now is None:
+                viol.append(("a reference list shared with other pids disappeared", {"cid": cid0[:8]}))
+                continue
+            if not set(before) <= set(now):
+                viol.append(("a bystander's line vanished from a shared reference list after the crash", {"cid": cid0[:8]}))
+            if target in now and target not in (a_ini.cid_lines(cid0) or []) and a_now.pid_refs.get(target) != cid0:
+                viol.append(("a shared reference list gained a line for the interrupted pid without its pid reference",
+                             {"cid": cid0[:8]}))
         if target is not None and kind in ("store", "tag", "delete"):
             got = pr[target][0]
             if isinstance(got, tuple):
